@@ -64,7 +64,7 @@ def _block(btype, body, e):
     return struct.pack(e + "II", btype, n) + body + b"\x00" * pad + struct.pack(e + "I", n)
 
 
-def pcapng(items, le=True, tsresol=None, tsoffset=None, snaplen=262144, junk_blocks=False, offset_first=False, extra_opts=False, epb_opts=False):
+def pcapng(items, le=True, tsresol=None, tsoffset=None, snaplen=262144, junk_blocks=False, offset_first=False, extra_opts=False, epb_opts=False, pre_idb=()):
     """items: list of ('pkt', ts_us:int, frame) | ('dsb', bytes) | ('raw', btype, body)
     offset_first: write if_tsoffset before if_tsresol in the IDB (pcapng prescribes no option order);
     extra_opts: unrelated options in the SHB (hardware, os, userappl) and IDB (if_name, if_description, if_os, if_fcslen, a custom one);
@@ -86,6 +86,11 @@ def pcapng(items, le=True, tsresol=None, tsoffset=None, snaplen=262144, junk_blo
         opts += _opt(0, b"", e)
     if junk_blocks:
         out.append(_block(0x00000BAD, struct.pack(e + "I", 32473) + b"custom!!", e))
+    for it in pre_idb:      # blocks between the section header and the first interface description (legal for DSB, NRB, custom blocks)
+        if it[0] == "dsb":
+            out.append(_block(10, struct.pack(e + "II", 0x544C534B, len(it[1])) + it[1], e))
+        elif it[0] == "raw":
+            out.append(_block(it[1], it[2], e))
     out.append(_block(1, struct.pack(e + "HHI", 1, 0, snaplen) + opts, e))
     if tsresol is None:
         num, den = 1, 10 ** 6
